@@ -12,7 +12,7 @@ import (
 // finders, the markup parsers and the two-pass logic. docspec = template id; the
 // members inside a template rotate with the PRNG of the docGen.
 
-const nRichDocs = 24
+const nRichDocs = 25
 
 func pagerHTML(g *docGen, style string, n, k int) string {
 	var sb strings.Builder
@@ -191,6 +191,32 @@ func richDoc(id int, g *docGen) string {
 		t := titles[(id/nRichDocs+r.Intn(3))%len(titles)]
 		h := g.pick("", "<h1>"+t+"</h1>", "<h1>"+w(4)+"</h1>", "<h2>"+t+"</h2>")
 		return "<!DOCTYPE html><html><head><title>" + t + "</title></head><body><div>" + h + story(3) + "</div></body></html>"
+	case 23: // odd pagers: link shapes that stress the slicing and number parsing of the page-pattern code
+		sets := [][]string{
+			{"/y/x/abc.html", "/y/x/2/y/x/abc.html", "/y/x/3/y/x/abc.html"}, // pattern prefix and suffix overlap in the first page
+			{"/story/view/1", "/story/view/99999999999999999999", "/story/view/3"},
+			{"/story/view/001", "/story/view/002", "/story/view/003"},
+			{"/1", "/2", "/3"},
+			{"/story/view?pg=", "/story/view?pg=2", "/story/view?pg=3&pg="},
+			{"/story/view?pg=%32", "/story/view?pg=3", "/story/view?pg=4"},
+			{"/story/view-1.html", "/story/view-2.html/", "/story/view-3.html?x=1#f"},
+			{"/story/2014/07/15", "/story/2014/07/16", "/story/2014/07/17"},
+			{"/story/view/2/", "/story/view/2/2/", "/story/view/2/2/2/"},
+			{"/story/v1ew/p2", "/story/v1ew/p3", "/story/v1ew/p4"},
+			{"/story/view/-1", "/story/view/-2", "/story/view/+3"},
+			{"/story/view/1.5", "/story/view/2.5", "/story/view/3.5"},
+			{"/a/b/c/d/e/f/g/h/2", "/a/b/c/d/e/f/g/h/3", "/a/2"},
+			{"/zqt/12/p/1", "/zqt/13/p/2", "/zqt/14/p/3"},
+		}
+		set := sets[(id/nRichDocs+r.Intn(2))%len(sets)]
+		var sb strings.Builder
+		for i, h := range set {
+			if i == 1 && r.Intn(2) == 0 {
+				sb.WriteString(fmt.Sprintf("<span>%d</span> ", i+1))
+			}
+			sb.WriteString(fmt.Sprintf(`<a href="%s">%d</a> `, h, i+1))
+		}
+		body.WriteString("<div>" + story(3) + "</div><div>" + sb.String() + `<a href="` + set[len(set)-1] + `">Next</a></div>`)
 	default: // a random abstract document through the doc-family concretiser
 		forest := randomForest(r, 14)
 		return g.page(forest, docPlaces[r.Intn(len(docPlaces))])
